@@ -111,6 +111,19 @@ def eval_c(text, cond):
     return float(ceval.value(ceval.parse_expr(text), env))
 
 
+NUCLEONS = {"H": 1.0, "D": 2.0, "He": 4.0, "C": 12.0, "N": 14.0, "O": 16.0, "Si": 28.0, "S": 32.0, "Mg": 24.0, "Fe": 56.0, "Na": 23.0, "Cl": 35.0, "P": 31.0, "F": 19.0}
+
+
+def indep_mass(name, fallback):
+    """mass number of a species from its name, read independently of naunet (ice prefix '#' or Leeds 'G' dropped)"""
+    from .native_ode import indep_identity
+    nm = name[1:] if name[:1] in "#G" and not name.startswith("GRAIN") else name
+    ident = indep_identity(nm)
+    if ident is None or any(k not in NUCLEONS for k, _ in ident[1] if k not in ("e", "GRAIN")):
+        return fallback
+    return sum(NUCLEONS.get(k, 0.0) * v for k, v in ident[1] if k not in ("e", "GRAIN"))
+
+
 def rate12_table():
     """the RATE12 binding-energy list read independently of naunet: first column exact species name, second column the value"""
     import naunet.chemistrydata as cd, os
@@ -181,7 +194,7 @@ def oracle(tier, seed):
                 cond = _Cond()
                 try:
                     for k, s in enumerate(sps[:2]):
-                        syms[f"A{k + 1}"] = s.massnumber
+                        syms[f"A{k + 1}"] = indep_mass(names[k], s.massnumber)
                         if s.is_surface:
                             eb = override[s.name] if override else T12.get(s.name[1:] if s.name[:1] in "#G" else s.name)
                             syms[f"Eb{k + 1}"] = eb
